@@ -34,9 +34,12 @@ def astDistArgs : List Var → List Var → List Ast
 
 def astL2 (i : Iv) : Ast := if i.star then .un .pos (.name i.name) else .name i.name
 
+/-- the population inside `PP[…]`: the constant `TARGET_DOMAIN` for the target domain, the variable otherwise -/
+def astPop (v : Var) : Ast := if v = targetDomain then .kw .TargetDomain else astVar v
+
 def astProbHead : Option Var → Ast
   | none => .kw .P
-  | some pop => .sub (.kw .PP) (astVar pop)
+  | some pop => .sub (.kw .PP) (astPop pop)
 
 def astProb (pop : Option Var) (c p : List Var) : Ast :=
   match level2 c p with
@@ -159,6 +162,14 @@ theorem parses_var (v : Var) : ParsesAt 3 (var v) (astVar v) := by
   rw [var_eq]
   exact parses_ivs (ParsesAt.of_unary (unary_signed _ _)) _
 
+/-- a printed population is a complete operand of the `@` level -/
+theorem parses_pop (v : Var) : ParsesAt 3 (pop v) (astPop v) := by
+  unfold pop astPop
+  split
+  · have := UnaryParses.kw .TargetDomain [] (by simp)
+    exact (by simpa [postToks, postAst] using this : UnaryParses [.kw .TargetDomain] (.kw .TargetDomain)).at 3 (by omega)
+  · exact parses_var v
+
 theorem var_head (v : Var) : ∃ t ts, var v = t :: ts ∧ t ≠ .rpar := by
   unfold var
   cases v.star with
@@ -234,7 +245,7 @@ theorem unary_prob (pop : Option Var) (c p : List Var) (hc : c ≠ []) : UnaryPa
   -- the optional population subscript
   let popItems : List PostItem := match pop with
     | none => []
-    | some v => [.sub (var v) [astVar v]]
+    | some v => [.sub (Print.pop v) [astPop v]]
   have hpop : ∀ it ∈ popItems, it.Ok := by
     intro it hit
     cases pop with
@@ -242,7 +253,7 @@ theorem unary_prob (pop : Option Var) (c p : List Var) (hc : c ≠ []) : UnaryPa
     | some v =>
       simp [popItems] at hit
       subst hit
-      exact ListParses.single ((parses_var v).lift_to (by omega) (by omega))
+      exact ListParses.single ((parses_pop v).lift_to (by omega) (by omega))
   have hhead : ∀ more : List Tok, probHead pop ++ more = (match pop with | none => Tok.kw .P | some _ => Tok.kw .PP) :: (postToks popItems ++ more) := by
     intro more
     cases pop <;> simp [probHead, popItems, postToks, PostItem.toks]
